@@ -577,13 +577,16 @@ func c03R4(p *Prog, r *Report, id string, pkgs []string) {
 			if ec.calle != nil && objPkgPath(ec.calle) == "fmt" && (strings.HasPrefix(ec.calle.Name(), "Fprint") || strings.HasPrefix(ec.calle.Name(), "Print")) {
 				continue
 			}
+			if ec.calle != nil && (objPkgPath(ec.calle) == "strings" && recvTypeName(ec.calle) == "Builder" || objPkgPath(ec.calle) == "bytes" && recvTypeName(ec.calle) == "Buffer") {
+				continue // documented: these writers always return a nil error
+			}
 			if ec.calle != nil && (isFunc(ec.calle, "fmt", "", "Errorf") || isFunc(ec.calle, "errors", "", "New") || isFunc(ec.calle, modPath+"/builder", "", "NewError") || isFunc(ec.calle, modPath+"/builder", "Error", "Lift")) {
 				continue
 			}
 			cnt[name]++
 			site := fmt.Sprintf("%s/call %s#%d", fi.Name(), name, cnt[name])
 			pos := p.PosStr(ec.call.Pos())
-			akey := fi.Name() + "|" + name
+			akey := p.anchorFor(fi, fnPartsOf(append(mapKeys(auditedErrDrops), mapKeys(sanctionedEdges)...))) + "|" + name
 			if why, ok := auditedErrDrops[akey]; ok {
 				r.OK(site, pos, "audited drop: "+why)
 				continue
